@@ -65,6 +65,11 @@ const FAULT_KINDS: [(ErrorKind, &str); 7] = [
     (ErrorKind::Io(std::io::ErrorKind::Other), "injected: other i/o error"),
 ];
 
+thread_local! {
+    /// the read timeout the port already has when the call under test starts (None: never set)
+    static PRIOR_TIMEOUT: std::cell::Cell<Option<Duration>> = const { std::cell::Cell::new(None) };
+}
+
 fn run_case(prior: PortSettings, entry: Entry, fault: Fault, fk: usize, rep: &mut Report) {
     run_case_budget(prior, entry, fault, fk, usize::MAX, rep)
 }
@@ -77,6 +82,8 @@ fn run_case_budget(prior: PortSettings, entry: Entry, fault: Fault, fk: usize, b
     rep.case(Some(fnv(sig.as_bytes())));
     rep.count(&format!("cells/{}/{:?}", match entry { Entry::ConfigurePort(_) => "configure_port", Entry::SerialSignBus => "SerialSignBus", Entry::Odk => "Odk" }, fault));
     let st = doubles::shared(prior);
+    let prior_timeout = PRIOR_TIMEOUT.with(|c| c.get());
+    st.borrow_mut().timeout = prior_timeout;
     let injected = FAULT_KINDS[fk];
     {
         let mut s = st.borrow_mut();
@@ -223,6 +230,24 @@ pub fn run(ctx: &Ctx) -> Outcome {
                 rep.count("unusual_timeouts_applied");
             }
         }
+        // a port that has been set up before: it already carries a read timeout — the very one the call is going to ask
+        // for (5 s for the bus, 10 s for the bridge, the caller's own value), or another one. Every error kind at every
+        // fault point must still surface, and the line settings must still be written.
+        if i % 4 == 1 {
+            for pt in [Duration::from_secs(5), Duration::from_secs(10), Duration::from_millis(777), Duration::from_secs(1)] {
+                PRIOR_TIMEOUT.with(|c| c.set(Some(pt)));
+                for e in [Entry::ConfigurePort(Duration::from_millis(777)), Entry::SerialSignBus, Entry::Odk] {
+                    run_case(prior, e, Fault::None, 0, rep);
+                    for fk in 0..FAULT_KINDS.len() {
+                        for fault in [Fault::ReadSettings, Fault::Baud, Fault::WriteSettings, Fault::SetTimeout] {
+                            run_case(prior, e, fault, fk, rep);
+                            rep.count("cases_on_a_port_with_a_timeout_already_set");
+                        }
+                    }
+                }
+                PRIOR_TIMEOUT.with(|c| c.set(None));
+            }
+        }
         // every error kind at every fault point (persistent faults), on a few priors per shard
         if i % 16 == 0 {
             for fk in 0..FAULT_KINDS.len() {
@@ -265,6 +290,7 @@ pub fn run(ctx: &Ctx) -> Outcome {
         floor("all 864 prior settings", report.get("priors_done") == 864, report.get("priors_done")),
         floor("transient (one- and two-shot) refusals at every fault point for every prior", report.get("transient_fault_cases") == 864 * 3 * 4 * 2, report.get("transient_fault_cases")),
         floor("sub-millisecond, fractional and very long caller timeouts", report.get("unusual_timeouts_applied") == 108 * 10, report.get("unusual_timeouts_applied")),
+        floor("ports that already carry a read timeout (equal to / different from the one asked for), every error kind at every fault point", report.get("cases_on_a_port_with_a_timeout_already_set") == (216 * 4 * 3 * FAULT_KINDS.len() * 4) as u64, report.get("cases_on_a_port_with_a_timeout_already_set")),
         floor("one port object configured 70 000 times", report.get("repeated_setups_of_one_port") == 70_000, report.get("repeated_setups_of_one_port")),
         floor("every error kind (7, incl. Interrupted) at every fault point (4)", report.set_len("fault_kind_x_point") == 28, report.set_len("fault_kind_x_point")),
     ];
